@@ -20,7 +20,8 @@ ASSUMPTIONS = ["at most once counts successful constructions: the runtime delibe
 
 def conc_cfg(rng):
     cfg = c05.history_cfg(rng)
-    cfg["parameters"] = {"fp": "%myfn(1)%", "lit": "x", "cat": "a%fp%b"}
+    # al / al2: parameters that are nothing but another parameter — one evaluation of the function whichever name is asked first
+    cfg["parameters"] = {"fp": "%myfn(1)%", "lit": "x", "cat": "a%fp%b", "al": "%fp%", "al2": "%al%"}
     for k in range(8):
         cfg["parameters"]["m%d" % k] = "<m%d|%%lit%%|%d-%%lit%%>" % (k, k)
     cfg["meta"]["functions"] = {"myfn": "fx.Fn1"}
@@ -61,11 +62,29 @@ def run(ctx, n=None, par=None):
                 ops += [["par", par, ["getctx", "c1", nm]], ["par", par, ["getctx", "c2", nm]]]
         ops += [["parmix", max(2, par // 4), [["getctx", "c1", "vctx"], ["getctx", "c2", "vctx"], ["getctx", "c3", "vctx"], ["get", "vns"], ["get", "vctx"]]]]
         ops += [["parmix", max(2, par // 8), [["param", "m%d" % k] for k in range(8)] + [["get", "ns"]]],
+                ["parmix", max(2, par // 4), [["param", "al2"], ["param", "fp"], ["param", "al"]]],
                 ["par", par, ["param", "fp"]], ["par", par, ["param", "cat"]], ["par", par, ["tagged", "t"]], ["par", par, ["call", "GetFirst"]],
                 ["par", par, ["getctx", "c1", names[-1]]], ["par", par, ["getctx", "c2", names[-1]]], ["counters"]]
         items.append((cfg, ops))
     out, err = behave.run_batch(ctx, items, race=True, tag="c20")
     violations, nontriv = [], set()
+    # a contextual service must not become reachable from a shared one by ANY path — also through the decorator of a tag a
+    # dependency-free shared service carries: such configurations are refused at build time (otherwise the first context's
+    # instance would be cached in the shared service and handed to every other context)
+    fxm = {"pkg": "gen", "imports": {"fx": gen.FX}}
+    for k, bad in enumerate([
+            {"meta": fxm, "services": {"repo": {"constructor": "fx.NewA", "scope": "shared", "tags": ["t"]}, "tx": {"constructor": "fx.NewA", "scope": "contextual"}},
+             "decorators": [{"tag": "t", "decorator": "fx.Dec1", "arguments": ["@tx"]}]},
+            {"meta": fxm, "services": {"repo": {"value": "&fx.Obj{}", "scope": "shared", "tags": [{"name": "t", "priority": 3}]}, "tx": {"constructor": "fx.NewA", "scope": "contextual"},
+                                       "mid": {"constructor": "fx.NewA", "arguments": ["@tx"]}},
+             "decorators": [{"tag": "t", "decorator": "fx.Dec1", "arguments": ["!tagged u"]}, {"tag": "u", "decorator": "fx.Dec1"}],
+             "__extra__": {"mid": {"tags": ["u"]}}}]):
+        extra = bad.pop("__extra__", {})
+        for nm, add in extra.items():
+            bad["services"][nm].update(add)
+        a = ctx.impl.ask({"op": "compile", "files": [gen.yaml_doc(bad)], "version": ""})
+        if not (a.get("scope") or a.get("errs")):
+            violations.append({"sig": "contextual-reachable-from-shared-accepted", "what": "a shared service that reaches a contextual one through the decorator of a tag it carries is accepted: its first context's instance would be shared by all contexts", "files": [gen.yaml_doc(bad)]})
     dist = {"containers": 0, "parallel_ops": 0, "goroutines": 0, "shared_checked": 0, "contextual_checked": 0}
     if err:
         violations.append({"sig": "probe-build", "what": err})
@@ -96,6 +115,8 @@ def run(ctx, n=None, par=None):
                     o = inner_ops[i % len(inner_ops)]
                     if "panic" in x or "err" in x:
                         violations.append({"sig": "concurrent-error", "what": "%r under concurrency: %r" % (o, x), "files": rec["files"]})
+                    elif o[0] == "param" and not o[1].startswith("m"):
+                        pass  # fp / al / al2: judged by the evaluation counter below
                     elif o[0] == "param":
                         k = int(o[1][1:])
                         want = "<m%d|x|%d-x>" % (k, k)
